@@ -376,6 +376,23 @@ theorem C03_search_eq_answer_concrete (scoring : Bool) (c : Corpus)
   C03_search_eq_answer leafTree singleClauseGuard scoring c
     (fun s hs => leafTree_soundOn s.docs (hdw s hs)) hwf q hok
 
+/-- the same with every hypothesis in executable form — exactly what the driver evaluates on each
+case (`C03 wf <corpus>`, `C03 ok <query>`): whenever both answer 1, `search` = `answer` -/
+theorem C03_search_eq_answer_checked (scoring : Bool) (c : Corpus) (q : Query)
+    (hwf : c.all (fun s => docsWfB s.docs && s.alive.length == s.docs.length) = true)
+    (hok : okQ singleClauseGuard q = true) :
+    searchIds leafTree singleClauseGuard scoring c q = answer q c := by
+  have h := List.all_eq_true.mp hwf
+  apply C03_search_eq_answer_concrete scoring c _ _ q hok
+  · intro s hs
+    have := h s hs
+    simp only [Bool.and_eq_true, beq_iff_eq] at this
+    exact this.2
+  · intro s hs
+    have := h s hs
+    simp only [Bool.and_eq_true] at this
+    exact docsWfB_sound s.docs this.1
+
 /-! ## S6: phrases of ≥ 3 terms with slop ≥ 1 -/
 
 /-- adjusted positions `a@0 … b@3 … c@5` (a document `a x x b x c` for the phrase "a b c"):
@@ -855,6 +872,9 @@ example : (JsonRange.SegVals.mk [3, 9] 3 9).ok ∧ (JsonRange.SegVals.mk [2 ^ 63
   refine ⟨?_, ?_, by decide, by decide⟩
   · refine ⟨by simp, by simp, ?_, ?_⟩ <;> intro v hv <;> simp at hv <;> rcases hv with rfl | rfl <;> decide
   · refine ⟨by simp, by simp, ?_, ?_⟩ <;> intro v hv <;> simp at hv <;> rcases hv with rfl | rfl <;> decide
+example :
+    let c : Corpus := [⟨[⟨1, [⟨1, [97], [0, 4]⟩], []⟩], [true]⟩]
+    c.all (fun s => docsWfB s.docs && s.alive.length == s.docs.length) = true := by decide
 example : (JsonRange.B.excl (.f (-3))).small ∧ (JsonRange.B.incl (.i 7)).small
     ∧ JsonRange.implMatchF (.excl (.f (-3))) (.incl (.i 7)) 5 = true
     ∧ JsonRange.implMatchF (.excl (.f (-3))) (.incl (.i 7)) (-3) = false := by
